@@ -11,6 +11,14 @@ from __future__ import annotations
 from .. import core, tlc, tlaval, dsdlio
 from . import c02
 
+# name tokens the specification cannot hold as text
+TOKENS = {"UNI_LETTER": "Gr\u00f6\u00dfe", "UNI_DIGIT": "T\u0663", "UNI_MARK": "sube\u0301"}
+def tok(t: str) -> str:
+    return TOKENS.get(t, t)
+
+def cap_text(cap: int) -> str:
+    return {-1: "5/2", -2: "-2"}.get(cap, str(cap))
+
 def type_text(ft):
     base = ft["base"]
     if base in ("uint", "int", "float", "void"):
@@ -20,11 +28,11 @@ def type_text(ft):
     if ft["cast"]:
         s = ft["cast"] + " " + s
     if ft["arr"] == "fix":
-        s += "[%d]" % ft["cap"]
+        s += "[%s]" % cap_text(ft["cap"])
     elif ft["arr"] == "le":
-        s += "[<=%d]" % ft["cap"]
+        s += "[<=%s]" % cap_text(ft["cap"])
     elif ft["arr"] == "lt":
-        s += "[<%d]" % ft["cap"]
+        s += "[<%s]" % cap_text(ft["cap"])
     return s
 
 def build(c, extent_bits=None):
@@ -44,7 +52,7 @@ def build(c, extent_bits=None):
     if c["mode"] == "extfirst":
         lines.append("@extent 1024")
     ft = c["ft"]
-    first = type_text(ft) if ft["base"] == "void" and ft["arr"] == "none" else "%s %s" % (type_text(ft), c["name"]["t"])
+    first = type_text(ft) if ft["base"] == "void" and ft["arr"] == "none" else "%s %s" % (type_text(ft), tok(c["name"]["t"]))
     lines.append(first)
     if d == "unionlate":
         lines.append("@union")
@@ -94,6 +102,9 @@ def build(c, extent_bits=None):
         lines += ["@extent 1024", "uint8 LATE = 1"]
     elif m == "sealedthenconst":
         lines += ["@sealed", "uint8 LATE = 1"]
+    elif m in ("exthalf", "extneg", "extstr", "extbool", "extset"):
+        eb = extent_bits if extent_bits is not None else 1024
+        lines.append("@extent " + {"exthalf": "%d + 1/2" % (eb + 8), "extneg": "-8", "extstr": "'64'", "extbool": "true", "extset": "{%d}" % (eb + 8)}[m])
     else:
         eb = extent_bits if extent_bits is not None else 1024
         delta = {"ext0": 0, "extplus8": 8, "extminus8": -8, "extplus3": 3, "extexpr": 16}[m]
@@ -104,8 +115,8 @@ def build(c, extent_bits=None):
     if c["port"]["svc"]:
         lines += ["---", "uint8 response_field", "@sealed"]
     p = c["port"]
-    fname = "%s%s.%d.%d.dsdl" % (("%d." % p["id"]) if p["has"] else "", c["tname"]["t"], c["ver"][0], c["ver"][1])
-    files = {"%s/%s/%s" % (root, c["nsname"]["t"], fname): "\n".join(lines) + "\n"}
+    fname = "%s%s.%d.%d.dsdl" % (("%d." % p["id"]) if p["has"] else "", tok(c["tname"]["t"]), c["ver"][0], c["ver"][1])
+    files = {"%s/%s/%s" % (root, tok(c["nsname"]["t"]), fname): "\n".join(lines) + "\n"}
     if c["dep"] != "none":
         files["%s/Dep.1.0.dsdl" % root] = ("" if c["dep"] == "uses_nondep" else "@deprecated\n") + "@sealed\n"
     return files, root, bool(p["allow"])
@@ -125,7 +136,7 @@ def worker(arg):
     c, out = dict(st["case"]), st["out"]
     diff = []
     extent_bits = None
-    if c["mode"] in ("ext0", "extplus8", "extminus8", "extplus3", "extexpr"):
+    if c["mode"] in ("ext0", "extplus8", "extminus8", "extplus3", "extexpr", "exthalf", "extset"):
         # the longest representation: read the same definition sealed (C02 decides extents independently)
         c2 = _sealed_variant(c)
         c2["dir"] = "none"
@@ -133,7 +144,7 @@ def worker(arg):
         with dsdlio.Tree(files, "c05s") as tr:
             status, res, _ = dsdlio.read_ns(tr.path(root), allow_unregulated=allow)
         if status == "ok":
-            t = [x for x in res if x.short_name == c["tname"]["t"]][0]
+            t = [x for x in res if x.short_name == tok(c["tname"]["t"])][0]
             tt = t.request_type if isinstance(t, pydsdl.ServiceType) else t
             extent_bits = tt.extent
         else:
@@ -156,9 +167,10 @@ def worker(arg):
 def run(ctx):
     ctx.rule = ("TLC enumerates every definition obtained from the valid skeleton by <= 2 (quick) / 3 (thorough, sampled) "
                 "deviations over 11 dimensions: first field type (67: widths 1/2/64/65, cast modes, float sizes, void, utf8, "
-                "byte, arrays with capacities 0/1/2 in the three bracket forms), attribute / type / namespace names (58 legal "
-                "and reserved tokens in mixed case), duplicates, structure / union shapes, serialization mode (10 incl. "
-                "extent = longest -8 / +0 / +8 / +3), deprecation, versions (7), port-IDs at every range boundary x root "
+                "byte, arrays with capacities 0/1/2 and the non-natural capacities 5/2 and -2 in the three bracket forms), attribute / "
+                "type / namespace names (63 legal, reserved, non-ASCII (letter, digit, combining mark), digit-first and dashed "
+                "tokens in mixed case), duplicates, structure / union shapes, serialization mode (17 incl. "
+                "extent = longest -8 / +0 / +8 / +3 / +8.5, negative, string, boolean, set), deprecation, versions (7), port-IDs at every range boundary x root "
                 "class x allow flag x message / service (58), directive misuse (10). Each is materialised and read; accepted "
                 "iff Valid, rejections are InvalidDefinitionError. Every case is non-trivial; distinct by hash")
     ctx.assumptions = ["TLC's evaluation of the specification", "the legality of name tokens is a table transcribed from the "
